@@ -110,6 +110,7 @@ type op struct {
 	hasDefault bool
 	pred       func() bool
 	desc       string
+	quiesce    bool // a WaitQuiescent wait
 	site       string
 	parkSeq    int
 	completed  bool
@@ -659,9 +660,11 @@ func WaitQuiescent() {
 		return
 	}
 	me := sc.cur
-	sc.yield(&op{kind: opCond, desc: "quiescence", pred: func() bool {
+	sc.yield(&op{kind: opCond, desc: "quiescence", quiesce: true, pred: func() bool {
 		for _, t := range sc.threads {
-			if t != me && !t.done && sc.opEnabled(t) {
+			// another thread that waits for quiescence itself does not count as activity (and asking
+			// whether it is enabled would ask this very question again)
+			if t != me && !t.done && !(t.op != nil && t.op.quiesce) && sc.opEnabled(t) {
 				return false
 			}
 		}
